@@ -79,6 +79,14 @@ def page_classes():
     c['hd_many'] = _p(resp(headers=tuple(b'X-%d: v' % i for i in range(1500))))
     c['hd_bare_cr'] = _p(b'HTTP/1.1 200 OK\rX-A: b\rContent-Type: text/html\r\nConnection: close\r\n\r\n' + BODY)
     c['hd_utf8_bom'] = _p(b'\xef\xbb\xbf' + resp())
+    # ---- cookies: more than the per-domain limit (50) in one answer, the last ones for paths / domains not seen yet
+    flood = tuple(b'Set-Cookie: n%d=v; Path=/a' % i for i in range(52))
+    c['ck_flood_new_path'] = _p(resp(headers=flood + (b'Set-Cookie: last=1; Path=/b', b'Set-Cookie: nopath=1')))
+    c['ck_flood_same_path'] = _p(resp(headers=tuple(b'Set-Cookie: n%d=v' % i for i in range(120))))
+    c['ck_odd'] = _p(resp(headers=(b'Set-Cookie: =novalue', b'Set-Cookie: ;;;', b'Set-Cookie: a=b; Domain=.test; Path=//',
+                                   b'Set-Cookie: a=b; Max-Age=abc; Expires=never', b'Set-Cookie: ' + b'x' * 9000 + b'=1',
+                                   b'Set-Cookie: a=b; Domain=other.example', b'Set-Cookie2: a=b; Version=x',
+                                   b'Set-Cookie: \xff\xfe=\x00; Port="abc"')))
     # ---- Content-Length
     for name, v in (('cl_negative', b'-5'), ('cl_alpha', b'abc'), ('cl_empty', b''), ('cl_float', b'31.0'),
                     ('cl_hex', b'0x1f'), ('cl_huge_digits', b'9' * 5000), ('cl_plus', b'+%d' % len(BODY)),
